@@ -98,7 +98,7 @@ namespace Qib.TNet
 /-- consequences of `argsort_spec` in index form -/
 theorem argsort_inverse {sort : List Nat} (hs : sort.Perm (List.range sort.length)) :
     (argsort sort).length = sort.length ∧ (∀ k (hk : k < (argsort sort).length), (argsort sort)[k] < sort.length) ∧
-    (∀ k (hk : k < sort.length), sort[(argsort sort)[k]?.getD 0]?.getD 0 = k) ∧
+    (∀ k, k < sort.length → sort[(argsort sort)[k]?.getD 0]?.getD 0 = k) ∧
     (∀ k (hk : k < sort.length), (argsort sort)[sort[k]]?.getD 0 = k) := by
   obtain ⟨h1, h2⟩ := argsort_spec hs
   have hlen : (argsort sort).length = sort.length := by simpa using h1.length_eq
